@@ -336,8 +336,10 @@ pub fn single_line_statement_p() -> impl Parser<StringView, Output = Statement, 
 
 fn statement_label_p() -> impl Parser<StringView, Output = Statement, Error = ParserError> {
     // labels can have dots
+    // the colon is not consumed: it is the separator between the label and what follows,
+    // which may be a statement on the same line (`Handler: PRINT ERR`)
     identifier()
-        .and_keep_left(colon())
+        .and_keep_left(colon().peek())
         .map(|token| Statement::Label(CaseInsensitiveString::new(token.to_text())))
 }
 
